@@ -317,7 +317,91 @@ class TB:
                 if len(dp) <= len(P) and dp == P[:len(dp)]:
                     val = self.call_value(t, d[1])
                     return self.project(val, P[len(dp):])
+        g = self._gated_phi(L, P, at, rd)
+        if g is not None:
+            return g
         return ("opq", "phi", L, P, tuple(sorted(rd)))
+
+    # ------------------------------------------------------------------ gated phi
+    def _def_value(self, d, P):
+        if d[0] == "stmt":
+            st = self.body.stmts(d[1])[d[2]]
+            lp = proj_key(st["lhs"].get("p"))
+            if st["k"] == "assign" and len(lp) <= len(P) and lp == P[:len(lp)]:
+                return self.project(self.rvalue(st["rv"], (d[1], d[2]), st), P[len(lp):])
+        if d[0] == "call":
+            t = self.body.term(d[1])
+            dp = proj_key(t["dest"].get("p"))
+            if len(dp) <= len(P) and dp == P[:len(dp)]:
+                return self.project(self.call_value(t, d[1]), P[len(dp):])
+        return None
+
+    def _gated_phi(self, L, P, at, rd):
+        """`let x = if c { a } else { b }` (and what INLINE leaves of unwrap_or & co): two definitions on the two sides of one
+        branch, outside any loop through the use -> ("ite", condition fact, value if it holds, value otherwise)"""
+        if len(rd) != 2 or any(d[0] not in ("stmt", "call") for d in rd):
+            return None
+        if L == 0:
+            return None     # the return place: several exits stay several exits (CHAIN), not one conditional value
+        key = ("ite", L, P, tuple(sorted(rd)))
+        if key in self._memo:
+            return self._memo[key]
+        self._memo[key] = None      # re-entrancy: fall back to the opaque phi
+        b = self.body
+        d1, d2 = sorted(rd)
+        # acyclic: the use must not reach either definition again
+        reach = self._reach_from(at[0])
+        if d1[1] in reach or d2[1] in reach or d1[1] == d2[1]:
+            return None
+        v1, v2 = self._def_value(d1, P), self._def_value(d2, P)
+        if v1 is None or v2 is None:
+            return None
+        from . import guard as G_
+        if getattr(self, "_own_guards", None) is None:
+            self._own_guards = G_.Guards(self)
+        g = self._own_guards
+
+        def nearest(bb):
+            for (d, s_, lab) in g.dominating_edges(bb):
+                if b.term(d)["k"] in ("switch", "assert"):
+                    return d, g.edge_facts(d, s_, lab)
+            return None, []
+        n1, f1 = nearest(d1[1])
+        n2, f2 = nearest(d2[1])
+        if n1 is None or n1 != n2 or len(f1) != 1 or len(f2) != 1:
+            return None
+        a, c = f1[0], f2[0]
+        # two different outcomes of the same test
+        same_test = G_.negate(a) == c or a == G_.negate(c) or (a[0] == "cmp" and c[0] == "cmp" and a[2] == c[2] and a[3] != c[3] and a[3][0] == "c" and c[3][0] == "c")
+        if not same_test:
+            return None
+        # canonical orientation: positive / higher-discriminant outcome first
+        def rank(f):
+            if f[0] == "not" or (f[0] == "cmp" and f[1] == "Ne") or f == ("const", False):
+                return -1
+            if f[0] == "cmp" and f[3][0] == "c":
+                return f[3][1]
+            return 0
+        if rank(c) > rank(a):
+            a, c, v1, v2 = c, a, v2, v1
+        out = ("ite", a, v1, v2)
+        self._memo[key] = out
+        return out
+
+    def _reach_from(self, bb):
+        k = ("reach", bb)
+        if k in self._memo:
+            return self._memo[k]
+        seen = set()
+        st = [t for (t, _) in self.body.succ[bb]]
+        while st:
+            x = st.pop()
+            if x in seen:
+                continue
+            seen.add(x)
+            st += [t for (t, _) in self.body.succ[x]]
+        self._memo[k] = seen
+        return seen
 
     def entry_value(self, L):
         if 1 <= L <= self.body.argc:
@@ -379,6 +463,9 @@ class TB:
                 return ("ovf", base, t[2], t[3], t[4] if len(t) > 4 else None)
             return ("fld", t, idx, name, ty)
         if e[0] == "dc":
+            # downcast of a value built as that very variant: the variant's fields are the aggregate's operands
+            if t[0] == "aggr" and t[1][0] == "adt" and e[2] is not None and t[1][2] == e[2]:
+                return t
             return ("dc", t, e[1])
         if e[0] == "idx":
             return ("idx", t, self.local_value(e[1]))
@@ -606,7 +693,8 @@ def summarize(F, inst, depth, stack):
         rb = rets[0]
         at = (rb, len(body.stmts(rb)))
         ret = tb.read(0, (), at)
-        if contains_opaque(ret):
+        if contains_opaque(ret) or contains_ite(ret):
+            # a callee whose result is a choice between values stays a call term in its callers
             ret_ok = False
         else:
             ret_ok = True
@@ -617,6 +705,14 @@ def summarize(F, inst, depth, stack):
     sm = Summary(ret, facts, True, None)
     _SUMMARY_CACHE[ck] = sm
     return sm
+
+
+def contains_ite(t):
+    if not isinstance(t, tuple):
+        return False
+    if t and t[0] == "ite":
+        return True
+    return any(contains_ite(x) for x in t if isinstance(x, tuple))
 
 
 def contains_opaque(t):
@@ -747,10 +843,15 @@ def std_summary(tb, path, upath, fr, args):
         return ("min", args[0], args[1])
     if path in ("core::cmp::Ord::max", "core::cmp::max") or path.endswith("::max") and path.startswith("core::cmp::impls::<impl core::cmp::Ord for "):
         return ("max", args[0], args[1])
+    if path in ("core::option::Option::<&T>::cloned", "core::option::Option::<&T>::copied"):
+        return ("optderef", args[0])
     if path in ("core::option::Option::<T>::unwrap", "core::option::Option::<T>::expect"):
         a = args[0]
         if a[0] == "checked":
             return ("bin", a[1], a[2][0], a[2][1], a[3])
+        if a[0] == "optderef":
+            # x.copied().unwrap() == *x.unwrap()
+            return ("deref", ("unwrap", a[1]))
         return ("unwrap", a)
     if path in ("core::result::Result::<T, E>::unwrap", "core::result::Result::<T, E>::expect"):
         return ("unwrap", args[0])
@@ -761,4 +862,18 @@ def std_summary(tb, path, upath, fr, args):
         return ("rawslice", args[0], args[1], g[0] if g else None)
     if path in ("core::ptr::addr_of",):
         return args[0]
+    # the following std items are spliced at MIR level in monomorphic bodies (INLINE); polymorphic bodies keep the calls,
+    # so the same meaning is given here at term level
+    if path in ("<I as core::iter::traits::collect::IntoIterator>::into_iter", "core::iter::traits::iterator::Iterator::by_ref"):
+        return args[0]
+    if path == "core::cmp::PartialEq::ne" and len(args) == 2:
+        key = (fr.get("res") or {}).get("key") or ""
+        if key.endswith("::ne"):
+            eqk = key[:-4] + "::eq"
+            inst = tb.F.insts.get(eqk)
+            if inst is not None and tb.depth < MAX_INLINE and eqk not in tb.stack:
+                sm = summarize(tb.F, inst, tb.depth + 1, tb.stack)
+                if sm is not None and sm.ret is not None:
+                    return ("un", "Not", subst(sm.ret, {1: args[0], 2: args[1]}))
+            return ("un", "Not", ("call", eqk, args, None))
     return None
